@@ -30,14 +30,40 @@ MODEL_DEFAULTS = {
 }
 
 
+def interval_semantics(repo):
+    """Which end of an interval of an interval-based factor is closed, *as documented by the tree under test*: the sentence
+    of docs/source/Configuring_SimGrid.rst (network/latency-factor) that explains the example ``0:1;1000:2;5000:3``.
+      'on [0, 1000) the factor is 1. On [1000,5000), the factor is 2 while the factor is 3 for 5000 and beyond'  -> "lower"
+      'on (0, 1000] the factor is 1. On (1000, 5000], ...'                                                         -> "upper"
+    (with "upper", the sizes that are not larger than the first boundary get the default value of 1).
+    Returns None when the sentence is not found (the caller must stop: the reference has to be re-read by a human)."""
+    import os
+    import re
+    try:
+        with open(os.path.join(repo, "docs", "source", "Configuring_SimGrid.rst"), encoding="utf-8") as f:
+            text = " ".join(f.read().split())
+    except OSError:
+        return None
+    m = re.search(r"``0:1;1000:2;5000:3``, it means that on ([\[(])0, ?1000([\])]) the factor is 1\. On ([\[(])1000, ?5000([\])])", text)
+    if not m:
+        return None
+    if m.groups() == ("[", ")", "[", ")"):
+        return "lower"
+    if m.groups() == ("(", "]", "(", "]"):
+        return "upper"
+    return None
+
+
 class Factor:
     """'It expects a set of factors separated by semicolons, each of the form boundary:factor. For example if your
     specification is 0:1;1000:2;5000:3, it means that on [0, 1000) the factor is 1. On [1000,5000), the factor is 2 while the
     factor is 3 for 5000 and beyond. If your first interval does [not] include size=0, then the default value of 1 is used
-    before.'  A plain number is a constant factor."""
+    before.'  A plain number is a constant factor.
+    closed = "lower": intervals [b_i, b_i+1) (the text quoted above); "upper": (b_i, b_i+1] (see interval_semantics)."""
 
-    def __init__(self, spec):
+    def __init__(self, spec, closed="lower"):
         self.spec = spec
+        self.closed = closed
         self.const = None
         self.table = []
         if ":" not in spec and ";" not in spec:
@@ -50,25 +76,22 @@ class Factor:
                     self.table.append((int(b), float(v)))
             self.table.sort()
 
-    def __call__(self, size):
+    def _lookup(self, size, closed):
         if self.const is not None:
             return self.const
         val = 1.0
         for b, v in self.table:
-            if size >= b:
+            if (size >= b) if closed == "lower" else (size > b):
                 val = v
         return val
 
-    def code_boundary_reading(self, size):
-        """The *other* reading of an interval table: (b_i, b_{i+1}] instead of [b_i, b_{i+1}). Only used to classify a
-        mismatch that happens exactly on a boundary (it never makes a case pass)."""
-        if self.const is not None:
-            return self.const
-        val = 1.0
-        for b, v in self.table:
-            if size > b:
-                val = v
-        return val
+    def __call__(self, size):
+        return self._lookup(size, self.closed)
+
+    def other_reading(self, size):
+        """The reading of an interval table that the documentation does *not* give. Only used to classify a mismatch that
+        happens exactly on a boundary (it never makes a case pass)."""
+        return self._lookup(size, "upper" if self.closed == "lower" else "lower")
 
     def boundaries(self):
         return [b for b, _ in self.table]
